@@ -152,7 +152,8 @@ impl Accumulator {
             AggregateFunction::Count => Value::Int64(self.count),
             AggregateFunction::Sum => {
                 if self.count == 0 {
-                    Value::Null
+                    // SUM over no values is 0, as in the pull-based aggregate operators
+                    Value::Int64(0)
                 } else {
                     Value::Float64(self.sum)
                 }
